@@ -554,7 +554,11 @@ fn check_transition(pre: &Obs, action: &Action, outcome: &Outcome, post: &Obs, t
             // a path that leaves is removed by the update even if the user changed the file
             let removed = |r: &str| leaving.iter().any(|l| l.as_str() == r);
             // leaving paths below a user file cannot be removed (there is nothing to remove)
-            let n_leaving_below_file = leaving.iter().filter(|p| below_a_file(&pre.disk, p, &|_| false)).count() as u32;
+            // (or: the user put a directory in their place, which jj leaves alone)
+            let n_leaving_below_file = leaving
+                .iter()
+                .filter(|p| below_a_file(&pre.disk, p, &|_| false) || pre.disk.dirs.contains(p.as_str()))
+                .count() as u32;
             for p in &entering {
                 if blocked(&pre.disk, p, &removed) {
                     n_blocked += 1;
